@@ -26,12 +26,12 @@ func (c *Ctx) installEvents(rows, hdr *types.Var) []installEvent {
 			continue
 		}
 		if _, elems, ok := appendedElems(fs.St.Val); ok && len(elems) == 1 {
-			evs = append(evs, installEvent{Fn: fs.Fn, At: fs.St, Row: elems[0], Table: fs.Base, What: "installs a row in the row list"})
+			evs = append(evs, installEvent{Fn: fs.Fn, At: fs.St, Row: capturedLoad(elems[0]), Table: capturedLoad(fs.Base), What: "installs a row in the row list"})
 		}
 	}
 	for _, fs := range c.StoresTo(hdr) {
 		if !fs.Fresh {
-			evs = append(evs, installEvent{Fn: fs.Fn, At: fs.St, Row: fs.St.Val, Table: fs.Base, What: "installs the header row"})
+			evs = append(evs, installEvent{Fn: fs.Fn, At: fs.St, Row: capturedLoad(fs.St.Val), Table: capturedLoad(fs.Base), What: "installs the header row"})
 		}
 	}
 	ix := c.Idx()
@@ -59,7 +59,7 @@ func (c *Ctx) installEvents(rows, hdr *types.Var) []installEvent {
 				if ri >= len(args) || ti >= len(args) {
 					continue
 				}
-				more = append(more, installEvent{Fn: s.Fn, At: s.Call.(ssa.Instruction), Row: args[ri], Table: args[ti], What: e.What + " (through " + FuncName(e.Fn) + ")", Via: FuncName(e.Fn)})
+				more = append(more, installEvent{Fn: s.Fn, At: s.Call.(ssa.Instruction), Row: capturedLoad(args[ri]), Table: capturedLoad(args[ti]), What: e.What + " (through " + FuncName(e.Fn) + ")", Via: FuncName(e.Fn)})
 			}
 		}
 		if len(more) == 0 {
